@@ -85,6 +85,20 @@ def leavesOnDisconnectOf : List Sk → Bool
   | [_, _, .loop (_ :: .loop inner :: _)] => mentionsL .s_break_outer inner
   | _ => false
 
+def hasBrk : List Sk → Bool
+  | [] => false
+  | .brk :: _ => true
+  | _ :: rest => hasBrk rest
+
+/-- `hot_reloading_thread`: the last statement of an iteration takes one event batch and its
+`Disconnected` arm (the third) breaks out of the thread loop. -/
+def leavesOnEventsDisconnectOf : List Sk → Bool
+  | [_, _, .loop body] =>
+    match body.getLast? with
+    | some (.branch [[.call .s_try_recv, .branch [_, _, third]], _]) => hasBrk third
+    | _ => false
+  | _ => false
+
 /-- `reload_untyped`: the recorded load runs under `catch_unwind` (and nowhere outside of it). -/
 def catchesPanicOf (sk : List Sk) : Bool :=
   (idxCall .s_catch_unwind sk).isSome && !mentionsHereL .s_record sk && !mentionsHereL .s_load_asset sk
@@ -95,6 +109,7 @@ def genCfg : Cfg where
   waitNotifies := waitNotifiesOf skel_hot_reloading_mod_Answers_wait_for_answer
   marksFirst := marksFirstOf skel_hot_reloading_dependencies_DepsGraph_visit
   leavesOnDisconnect := leavesOnDisconnectOf skel_hot_reloading_mod_hot_reloading_thread
+  leavesOnEventsDisconnect := leavesOnEventsDisconnectOf skel_hot_reloading_mod_hot_reloading_thread
   catchesPanic := catchesPanicOf skel_anycache_AnyCache_reload_untyped
 
 end AmVerif.Model.Reloader
